@@ -161,6 +161,11 @@ Plan gen_c07(sk::Rng& r, Tier) {
     Plan p;
     const int n = static_cast<int>(r.range(5, 80));
     const int deep = static_cast<int>(r.pick<std::int64_t>({0, 1, 7, 8, 100, 200, 254, 255}));
+    // in a third of the runs one bucket is driven to (and past) its capacity first: 15..24 distinct ids with the same prefix length
+    if (r.chance(1, 3)) {
+        const int burst = static_cast<int>(r.range(15, 24));
+        for (int i = 0; i < burst; ++i) { Op op; op.k = r.chance(4, 5) ? "register" : "provider"; op.a = {deep, 100 + i, r.pick<std::int64_t>({60, 900}), static_cast<std::int64_t>(r.below(5))}; p.ops.push_back(op); }
+    }
     for (int i = 0; i < n; ++i) {
         Op op;
         const auto c = r.below(100);
